@@ -450,6 +450,10 @@ func wrapperKind(c caseT) string {
 	k := "unfrozen-" + c.Kind + "-" + c.vclass
 	if o := run(c.probe); strings.Contains(o.Err, "immutable") {
 		k = "frozen-" + c.Kind
+		if c.vclass != "frozen" && c.vclass != "element-of-frozen" {
+			// a frozen wrapper that did not come out of a subincluded file's globals: a different input than the listed findings
+			k += ":" + c.vclass
+		}
 	}
 	probeCache.Store(c.probe, k)
 	return k
